@@ -422,7 +422,7 @@ class Report:
             print('note: ' + n)
         for f, v in self.known_hits:
             print('KNOWN-FINDING: property=%s %s' % (self.prop, f.get('what', f.get('id'))))
-        for v in self.confirmed:
+        for v in self.confirmed[:12]:
             print('VIOLATION property=%s replay=%s' % (self.prop, v['replay_file']))
             print('  ' + json.dumps(_jsonable({k: v[k] for k in v if k in ('kind', 'detail', 'native', 'task')}))[:600])
         if status == 2:
